@@ -19,6 +19,7 @@ limitations under the License.
 package server
 
 import (
+	dto "github.com/prometheus/client_model/go"
 	"k8s.io/apimachinery/pkg/runtime"
 	"k8s.io/pod-security-admission/admission"
 )
@@ -36,4 +37,9 @@ const VerifMaxRequestSize = maxRequestSize
 // VerifDeserializer is the decoder HandleValidate hands to api.RequestAttributes.
 func VerifDeserializer() runtime.Decoder {
 	return codecs.UniversalDeserializer()
+}
+
+// VerifGatherMetrics gathers the metric families of the registry Setup registered the recorder with.
+func VerifGatherMetrics(s *Server) ([]*dto.MetricFamily, error) {
+	return s.metricsRegistry.Gather()
 }
